@@ -343,7 +343,12 @@ C09_TYPED = {          # kind -> three values (two written originally, the third
     "bool": lambda: [True, False, None],
     "int32": lambda: [np.int32(7), np.int32(-70000), np.int32(8)],
     "str": lambda: ["a", "True", "1.0"],
+    # a categorical partition column whose dtype has categories NO row carries ('zz' never, 'c' not in the original write):
+    # groupby(observed=False) then yields EMPTY groups - a writer that opens a file / makes a directory for them leaves
+    # 0-byte part files and spurious partition directories that _metadata does not reference
+    "categorical unobserved": lambda: ["a", "b", "c"],
 }
+C09_TYPED_CATEGORIES = {"categorical unobserved": ["a", "b", "c", "zz"]}
 C09_TYPED_DTYPE = {"float32 inexact": "float32", "int32": "int32", "bool": "bool"}
 
 
@@ -352,6 +357,8 @@ def c09_typed_frame(kind, idxs, step):
     col = [vals[i] for i in idxs]
     dt = C09_TYPED_DTYPE.get(kind)
     p = pd.Series(col, dtype=dt) if dt else pd.Series(col)
+    if kind in C09_TYPED_CATEGORIES:
+        p = pd.Series(pd.Categorical(col, categories=C09_TYPED_CATEGORIES[kind]))
     return pd.DataFrame({"x": np.arange(step * 100, step * 100 + len(idxs), dtype="int64"), "p": p})
 
 
